@@ -145,7 +145,21 @@ pub mod txn {
         Link(i64, i64),
         Merge(i64),
         Syntax(u8),
+        /// label-less nodes
+        CreateNL(Vec<(i64, Cell)>),
+        /// statements driven by the unlabelled scan MATCH (n)
+        ScanSet(u8, i64),
+        ScanLabel(bool, u8),
+        ScanLoop,
+        ScanDelete(bool),
+        /// labelled scan MATCH (n:<label>) SET n.<p> = z
+        LabelSet(u8, u8, i64),
+        /// multi-target deletes (distinct keys) and DELETE r, a
+        DeleteIn(bool, Vec<i64>),
+        DeleteRel(i64),
     }
+    /// label 0 is on every node of the initial databases; F1, F2 are never interned before the transaction
+    pub const LABELS: [&str; 3] = ["L", "F1", "F2"];
     pub const PROPS: [&str; 2] = ["v", "w"];
     const BAD_TEXT: [&str; 4] = ["CREATE (:L {k: )", "MATCH (n:L) SET n.v = ", "CREATE (:L {k: 1}", "MATCH (n:L) WHERE n.k = 1 DELETE"];
 
@@ -173,6 +187,19 @@ pub mod txn {
                 Stmt::Link(a, b) => format!("MATCH (a:L), (b:L) WHERE a.k = {} AND b.k = {} CREATE (a)-[:R]->(b)", a, b),
                 Stmt::Merge(k) => format!("MERGE (n:L {{k: {}}})", k),
                 Stmt::Syntax(i) => BAD_TEXT[*i as usize % BAD_TEXT.len()].to_string(),
+                Stmt::CreateNL(rows) => format!("UNWIND {} AS r CREATE ({{k: r[0], v: {}}})", rows_text(rows), ROW_EXPR),
+                Stmt::ScanSet(p, z) => format!("MATCH (n) SET n.{} = {}", PROPS[*p as usize], z),
+                Stmt::ScanLabel(true, l) => format!("MATCH (n) SET n:{}", LABELS[*l as usize]),
+                Stmt::ScanLabel(false, l) => format!("MATCH (n) REMOVE n:{}", LABELS[*l as usize]),
+                Stmt::ScanLoop => "MATCH (n) CREATE (n)-[:R]->(n)".to_string(),
+                Stmt::ScanDelete(detach) => format!("MATCH (n) {}DELETE n", if *detach { "DETACH " } else { "" }),
+                Stmt::LabelSet(l, p, z) => format!("MATCH (n:{}) SET n.{} = {}", LABELS[*l as usize], PROPS[*p as usize], z),
+                Stmt::DeleteIn(detach, ks) => format!(
+                    "MATCH (n:L) WHERE n.k IN [{}] {}DELETE n",
+                    ks.iter().map(|k| k.to_string()).collect::<Vec<_>>().join(", "),
+                    if *detach { "DETACH " } else { "" }
+                ),
+                Stmt::DeleteRel(k) => format!("MATCH ()-[r]->(a:L) WHERE a.k = {} DELETE r, a", k),
             }
         }
         pub fn coq(&self) -> String {
@@ -188,6 +215,14 @@ pub mod txn {
                 Stmt::Link(a, b) => format!("SLink {} {}", coq_z(*a as i128), coq_z(*b as i128)),
                 Stmt::Merge(k) => format!("SMerge {}", coq_z(*k as i128)),
                 Stmt::Syntax(_) => "SSyntax".into(),
+                Stmt::CreateNL(r) => format!("SCreateNL {}", rows(r)),
+                Stmt::ScanSet(p, z) => format!("SScanSet {} {}", coq_n(*p as u128), coq_z(*z as i128)),
+                Stmt::ScanLabel(a, l) => format!("SScanLabel {} {}", coq_bool(*a), coq_n(*l as u128)),
+                Stmt::ScanLoop => "SScanLoop".into(),
+                Stmt::ScanDelete(d) => format!("SScanDelete {}", coq_bool(*d)),
+                Stmt::LabelSet(l, p, z) => format!("SLabelSet {} {} {}", coq_n(*l as u128), coq_n(*p as u128), coq_z(*z as i128)),
+                Stmt::DeleteIn(d, ks) => format!("SDeleteIn {} {}", coq_bool(*d), coq_list(ks, |k| coq_z(*k as i128))),
+                Stmt::DeleteRel(k) => format!("SDeleteRel {}", coq_z(*k as i128)),
             }
         }
         pub fn kind(&self) -> &'static str {
@@ -199,22 +234,36 @@ pub mod txn {
                 Stmt::Link(..) => "link",
                 Stmt::Merge(_) => "merge",
                 Stmt::Syntax(_) => "syntax",
+                Stmt::CreateNL(_) => "create-no-label",
+                Stmt::ScanSet(..) => "scan-set",
+                Stmt::ScanLabel(true, _) => "scan-set-label",
+                Stmt::ScanLabel(false, _) => "scan-remove-label",
+                Stmt::ScanLoop => "scan-create-rel",
+                Stmt::ScanDelete(_) => "scan-delete",
+                Stmt::LabelSet(..) => "label-scan-set",
+                Stmt::DeleteIn(true, _) => "detach-delete-in",
+                Stmt::DeleteIn(false, _) => "delete-in",
+                Stmt::DeleteRel(_) => "delete-rel-and-node",
             }
         }
         /// keys the statement filters on (reads through MATCH / MERGE)
         pub fn reads(&self) -> Vec<i64> {
             match self {
-                Stmt::Create(_) | Stmt::Syntax(_) => vec![],
+                Stmt::Create(_) | Stmt::Syntax(_) | Stmt::CreateNL(_) => vec![],
+                Stmt::ScanSet(..) | Stmt::ScanLabel(..) | Stmt::ScanLoop | Stmt::ScanDelete(_) | Stmt::LabelSet(..) => vec![],
                 Stmt::Set(_, r) => r.iter().map(|x| x.0).collect(),
-                Stmt::Delete(_, k) | Stmt::Merge(k) => vec![*k],
+                Stmt::Delete(_, k) | Stmt::Merge(k) | Stmt::DeleteRel(k) => vec![*k],
+                Stmt::DeleteIn(_, ks) => ks.clone(),
                 Stmt::Link(a, b) => vec![*a, *b],
             }
         }
         /// keys of nodes the statement may write (create, update, delete, connect)
         pub fn writes(&self) -> Vec<i64> {
             match self {
-                Stmt::Create(r) | Stmt::Set(_, r) => r.iter().map(|x| x.0).collect(),
-                Stmt::Delete(_, k) | Stmt::Merge(k) => vec![*k],
+                Stmt::Create(r) | Stmt::Set(_, r) | Stmt::CreateNL(r) => r.iter().map(|x| x.0).collect(),
+                Stmt::ScanSet(..) | Stmt::ScanLabel(..) | Stmt::ScanLoop | Stmt::ScanDelete(_) | Stmt::LabelSet(..) => vec![],
+                Stmt::Delete(_, k) | Stmt::Merge(k) | Stmt::DeleteRel(k) => vec![*k],
+                Stmt::DeleteIn(_, ks) => ks.clone(),
                 Stmt::Link(a, b) => vec![*a, *b],
                 Stmt::Syntax(_) => vec![],
             }
@@ -251,7 +300,7 @@ pub mod txn {
         /// (explicit transactions plan every statement against it), fail after a write?
         pub fn fails_dirty(&self, s: &Stmt) -> bool {
             match s {
-                Stmt::Create(r) => r.iter().any(|x| x.1.raises()),
+                Stmt::Create(r) | Stmt::CreateNL(r) => r.iter().any(|x| x.1.raises()),
                 Stmt::Set(_, r) => {
                     let has = |k: i64| self.nodes.iter().any(|n| n.0 == k);
                     let mut wrote = false;
@@ -289,7 +338,7 @@ pub mod txn {
         Init { nodes, edges }
     }
 
-    pub type Dump = (Vec<(i64, Vec<(u8, i64)>)>, Vec<(i64, i64)>);
+    pub type Dump = (Vec<(i64, Vec<u8>, Vec<(u8, i64)>)>, Vec<(i64, i64)>);
 
     /// canonical dump through ndb_query: identities erased, relationships with both ends alive
     pub fn dump(db: &CDb) -> Result<Dump, String> {
@@ -299,9 +348,12 @@ pub mod txn {
         let mut nodes = vec![];
         for row in v.as_array().ok_or("rows")? {
             let id = row["i"].as_i64().ok_or("id")?;
-            if row["l"] != serde_json::json!(["L"]) {
-                return Err(format!("unexpected labels {}", row["l"]));
+            let mut labels = vec![];
+            for l in row["l"].as_array().ok_or("labels")? {
+                let name = l.as_str().ok_or("label")?;
+                labels.push(LABELS.iter().position(|x| *x == name).ok_or(format!("unexpected label {}", name))? as u8);
             }
+            labels.sort();
             let p = row["p"].as_object().ok_or("props")?;
             let k = p.get("k").and_then(|x| x.as_i64()).ok_or(format!("node without integer k: {}", row))?;
             let mut props = vec![];
@@ -314,7 +366,7 @@ pub mod txn {
             }
             props.sort();
             ids.insert(id, k);
-            nodes.push((k, props));
+            nodes.push((k, labels, props));
         }
         let js = db.query("MATCH (a)-[r]->(b) RETURN id(a) AS a, id(b) AS b, type(r) AS t", None).map_err(|e| format!("dump rels: {:?}", e))?;
         let v: serde_json::Value = serde_json::from_str(&js).map_err(|e| e.to_string())?;
@@ -331,7 +383,14 @@ pub mod txn {
     }
     pub fn coq_dump(d: &Dump) -> (String, String) {
         (
-            coq_list(&d.0, |(k, ps)| format!("({}, {})", coq_z(*k as i128), coq_list(ps, |(p, v)| format!("({}, {})", coq_n(*p as u128), coq_z(*v as i128))))),
+            coq_list(&d.0, |(k, ls, ps)| {
+                format!(
+                    "({}, {}, {})",
+                    coq_z(*k as i128),
+                    coq_list(ls, |l| coq_n(*l as u128)),
+                    coq_list(ps, |(p, v)| format!("({}, {})", coq_n(*p as u128), coq_z(*v as i128)))
+                )
+            }),
             coq_list(&d.1, |(a, b)| format!("({}, {})", coq_z(*a as i128), coq_z(*b as i128))),
         )
     }
